@@ -4,7 +4,10 @@ Oracle A: generated import graphs over up to 6 modules served by the runner's mo
 diamonds, self-loops, longer cycles, missing, uncompilable and failing members), imported at top
 level, inside functions, inside try blocks, under aliases and repeatedly; each module prints when
 its body runs, defines same-named globals, reads built-ins, and exports functions that read and
-write its own globals. The model keeps a module registry with load states."""
+write its own globals. The model keeps a module registry with load states. Multi-run histories on one
+interpreter (imports that die uncaught half-way, an import suspended in a fiber and resumed by a later run, re-imports
+by later runs) are checked against the model too, and - model-free - no module body may announce itself twice over a
+whole history."""
 from .. import common
 from ..common import Check
 from ..gen import feat_mod
@@ -23,18 +26,25 @@ def run(tier):
     for i in range(n):
         src, mods = feat_mod.module_program(rng.fork(str(i)))
         plist.append({"name": "graph/%d" % i, "steps": [("snip", src)], "mods": mods})
+    r2 = ck.rng.fork("histories")
+    for i in range(600 if quick else 20000):
+        steps, mods = feat_mod.module_history(r2.fork(str(i)))
+        plist.append({"name": "history/%d" % i, "steps": steps, "mods": mods})
     loads_seen = {}
 
     def seen(p, m, res):
         v = m["view"][0]
-        bodies = [t for t in v["out"] if t.startswith("body of ")]
+        bodies = [t for st in m["view"] for t in st.get("out", []) if t.startswith("body of ")]
         if len(set(bodies)) != len(bodies):
             ck.inconclusive.append("model ran a module body twice in %s" % p["name"])
         if bodies:
             ck.note_nontrivial(p["steps"][0][1] + repr(p["mods"]))
         ck.count("module_bodies_run", len(bodies))
         ck.count("import_errors_expected", sum(1 for t in v["out"] if t == "<class ImportError>"))
-        real_bodies = [t for t in res["steps"][0].get("out", []) if t.startswith("body of ")]
+        real_bodies = [t for st in res["steps"] for t in st.get("out", []) if t.startswith("body of ")]
+        if p["name"].startswith("history/"):
+            ck.count("multi_run_histories")
+            ck.count("runs_in_histories", len(res["steps"]))
         if len(set(real_bodies)) != len(real_bodies):
             ck.violation("ModuleBodyRanTwice", modelcheck.replay_of(p, "hook", "a module body ran more than once: %s" % real_bodies, m))
         if res.get("loads") is not None and m.get("loads") is not None and sorted(res["loads"]) != sorted(m["loads"]):
